@@ -452,21 +452,65 @@ func e4OracleC08(r *e4Result) string {
 			lastClientPkt[e.Conn] = e.Seq
 		}
 	}
-	ackConsumed := map[string]int64{} // request tag -> seq from which its SUBACK is known to have been received
-	for _, e := range r.Log {
-		if e.Kind == "B" && e.Pkt != nil && e.Pkt.Type == rtSubAck && e.Note != "" {
-			// consumed once the client wrote anything later on that connection
-			for _, l := range r.Log {
-				if l.Seq > e.Seq && l.Conn == e.Conn && e4Emitted(l) {
-					if _, ok := ackConsumed[e.Note]; !ok {
-						ackConsumed[e.Note] = l.Seq
-					}
+	// Counting rule, per filter. Every SUBSCRIBE closure the client legitimately holds for a filter f stems from
+	// one of two sources: an accepted Subscribe call naming f, or a re-subscription pass after a non-first CONNACK
+	// that came without session (or with AlwaysResubscribe on) - and each such
+	// CONNACK adds at most one more closure per filter, on top of the ones still queued.  A closure is discharged
+	// when the SUBACK of a SUBSCRIBE carrying f was received.  So on a connection where nothing may be
+	// re-subscribed, a SUBSCRIBE carrying f is in order only while fewer SUBACKs for f have been received than
+	// closures were ever created for it.  (The single-filter re-subscription of a request's marker is
+	// indistinguishable from the request itself, hence the count per filter and not per request.)
+	obligations := map[string]int{}
+	for _, q := range r.Reqs {
+		if q.Kind != "sub" || q.Err != nil {
+			continue
+		}
+		seen := map[string]bool{q.Tag: true}
+		obligations[q.Tag]++
+		for _, f := range q.Step.Subs {
+			if !seen[f.Filter] {
+				seen[f.Filter] = true
+				obligations[f.Filter]++
+			}
+		}
+	}
+	type ackAt struct {
+		seq     int64
+		filters []string
+	}
+	var acks []ackAt // SUBACKs known to have been received, by the seq from which that is known
+	subByID := map[string]*refPacket{} // "conn/id" -> SUBSCRIBE packet
+	for i, e := range r.Log {
+		if e4Emitted(e) && e.Pkt.Type == rtSubscribe {
+			subByID[fmt.Sprintf("%d/%d", e.Conn, e.Pkt.ID)] = e.Pkt
+		}
+		if e.Kind == "B" && e.Pkt != nil && e.Pkt.Type == rtSubAck {
+			p := subByID[fmt.Sprintf("%d/%d", e.Conn, e.Pkt.ID)]
+			if p == nil {
+				continue
+			}
+			// received for certain once the client wrote anything later on that connection
+			for _, l := range r.Log[i+1:] {
+				if l.Conn == e.Conn && e4Emitted(l) {
+					acks = append(acks, ackAt{l.Seq, p.Filters})
 					break
 				}
 			}
 		}
 	}
+	restorable := map[string]bool{}
+	for f := range obligations {
+		restorable[f] = true
+	}
 	for _, e := range r.Log {
+		if e.Kind == "B" && e.Pkt != nil && e.Pkt.Type == rtConnAck && e.Pkt.Code == 0 && e.Conn != firstOK && (!e.Pkt.SessionPresent || r.Case.Cfg.AlwaysResub) {
+			// Every filter the application ever names, not only those already on the wire: tasks pushed for an
+			// earlier connection can still run ahead of this connection's Resubscribe, and what they attempt is
+			// restored by it too.
+			for f := range restorable {
+				obligations[f]++
+			}
+		}
 		if !e4Emitted(e) || e.Pkt.Type != rtSubscribe {
 			continue
 		}
@@ -474,20 +518,51 @@ func e4OracleC08(r *e4Result) string {
 		if !mustNotResub {
 			continue
 		}
-		tag := vTagOf(*e.Pkt)
 		why := "on the first connection"
 		if e.Conn != firstOK {
 			why = "although the broker kept the session (session present) and AlwaysResubscribe is off"
 		}
-		if tag == "" {
-			return fmt.Sprintf("SUBSCRIBE #%d on c%d %v belongs to no pending request: a re-subscription %s", e.Seq, e.Conn, *e.Pkt, why)
-		}
-		if s, ok := ackConsumed[tag]; ok && s <= e.Seq {
-			return fmt.Sprintf("SUBSCRIBE #%d on c%d %v repeats request %s whose SUBACK had already been received: a re-subscription %s", e.Seq, e.Conn, *e.Pkt, tag, why)
+		done := map[string]bool{}
+		for _, f := range e.Pkt.Filters {
+			if done[f] {
+				continue
+			}
+			done[f] = true
+			received := 0
+			for _, a := range acks {
+				if a.seq > e.Seq {
+					continue
+				}
+				for _, g := range a.filters {
+					if g == f {
+						received++
+						break
+					}
+				}
+			}
+			if received >= obligations[f] {
+				return fmt.Sprintf("SUBSCRIBE #%d on c%d %v carries filter %q, for which %d SUBACK(s) had already been received while only %d subscription(s) of it were ever due (Subscribe calls naming it + restores after session-less reconnects): a re-subscription %s", e.Seq, e.Conn, *e.Pkt, f, received, obligations[f], why)
+			}
 		}
 	}
-	// (1) convergence
-	if r.Quiesced {
+	// (1) convergence.  A session the broker dropped while its CONNACK (session present = 0) never reached the client
+	// cannot be noticed: the next CONNACK reports the fresh, empty session as present.  Nothing can be demanded then.
+	unseenLoss := false
+	for _, e := range r.Log {
+		if e.Kind != "SESSION-LOST" {
+			continue
+		}
+		seen := false
+		for _, l := range r.Log {
+			if l.Conn == e.Conn && l.Kind == "STATE" && strings.HasPrefix(l.Note, "Active") {
+				seen = true
+			}
+		}
+		if !seen {
+			unseenLoss = true
+		}
+	}
+	if r.Quiesced && !unseenLoss {
 		want := e4FoldSubs(r)
 		for f, q := range want {
 			if got, ok := r.Subs[f]; !ok || got != q {
